@@ -91,3 +91,18 @@ func goTestReplay(opt *Options, s *replaySpec, o *Obligation, dir string) (strin
 	log = append(log, "replay command: (cd "+opt.RepoDir+" && VERIF_REPLAY_FUNC="+fn+" go test -v -overlay "+ovFile+" -vet=off -tags verif -run '^"+s.Test+"$' "+s.Pkg+")")
 	return input, strings.Join(log, "\n")
 }
+
+// ReplayNow runs the harness registered for the obligation against the current tree.
+func ReplayNow(opt *Options, obligation string) (string, string, error) {
+	if err := LoadReplayers(opt.VerifDir); err != nil {
+		return "", "", err
+	}
+	rp := replayerFor(opt.Property + ":" + obligation)
+	if rp == nil {
+		return "", "", fmt.Errorf("no replay harness registered for %s:%s", opt.Property, obligation)
+	}
+	dir := filepath.Join(opt.VerifDir, ".work", fmt.Sprintf("replaynow-%d", os.Getpid()))
+	defer os.RemoveAll(dir)
+	input, log := rp(opt, &Obligation{Name: obligation}, dir)
+	return input, log, nil
+}
